@@ -83,7 +83,13 @@ class PropertyRun:
                 inl = overrides.get("+inline", [])
                 self.E.inline_ok.update(inl)
                 removed = {k: self.E.contracts.pop(k) for k in inl if k in self.E.contracts}
-            res = self.E.verify_function(qn, max_paths=getattr(mod, "MAX_PATHS", 4000))
+            extra = getattr(mod, "EXTRA_AXIOMS", ())
+            tier = self.tier
+
+            def jobify(ob, _extra=extra, _tier=tier):
+                j = make_job(ob, _tier, _extra)
+                return dict(name=ob["name"], trivial=False, job=j, kind=ob.get("kind"), path=ob.get("path"))
+            res = self.E.verify_function(qn, max_paths=getattr(mod, "MAX_PATHS", 4000), jobify=jobify)
             if overrides is not None:
                 self.E.contracts[qn] = saved
                 self.E.contracts.update(removed)
@@ -106,7 +112,8 @@ class PropertyRun:
                     self.results.append(dict(name=ob["name"], verdict="unsat", backend=ob.get("backend", "syntactic"),
                                              secs=ob.get("secs", 0.0), path=ob.get("path")))
                     continue
-                j = make_job(ob, self.tier, getattr(mod, "EXTRA_AXIOMS", ()))
+                j = ob["job"] if "job" in ob else make_job(ob, self.tier, getattr(mod, "EXTRA_AXIOMS", ()))
+                j["name"] = ob["name"]
                 j["path"] = ob.get("path")
                 j["kind"] = ob.get("kind")
                 jobs.append(j)
